@@ -11,6 +11,10 @@ pub struct Name { pub id: u64 }                    // Name(Arc<str>)
 impl Clone for Name { fn clone(&self) -> (r: Self) ensures r == *self { Name { id: self.id } } }
 // Ranges<A> { inner: HashSet<PrefixRange<A>> }: only its identity matters to the case split
 pub struct Ranges<A: Afi> { pub id: u64, pub _a: core::marker::PhantomData<A> }
+impl<A: Afi> Ranges<A> {
+    #[verifier::external_body]
+    pub fn is_empty(&self) -> (r: bool) { unimplemented!() }
+}
 
 //@item file=junos-agent/src/policies/mod.rs kind=struct name=Installed sub=/pub(crate) =>pub /
 //@item file=junos-agent/src/policies/mod.rs kind=struct name=Evaluated sub=/pub(crate) =>pub /
@@ -18,9 +22,9 @@ pub struct Ranges<A: Afi> { pub id: u64, pub _a: core::marker::PhantomData<A> }
 //@item file=junos-agent/src/policies/mod.rs kind=struct name=Differences sub=/pub(crate) =>pub /
 
 impl<'a, A: Afi> Differences<'a, A> {
-//@extract id=differences_new file=junos-agent/src/policies/compare.rs impl=/Differences<'a, A>/ fn=new rules=R1
+//@extract id=differences_new file=junos-agent/src/policies/compare.rs impl=/Differences<'a, A>/ fn=new rules=R1,R7,R17 r7map=option
 //@contract
-        ensures res.old == old, res.new == new,
+        ensures res.old == old, res.new == new,                                              // OBL:C01+C02+C03.compare.differences_carry_installed_and_evaluated
 //@end
 }
 
